@@ -804,6 +804,9 @@ class SshHostCertificateV00Base(ParsableBase, SshCertificateBase):  # pylint: di
         parser.parse_parsable('valid_principals', SshCertValidPrincipals)
 
         parser.parse_timestamp('valid_after')
+        if parser['valid_after'] is None:
+            # the all-ones value means 'no limit', which only the end of the validity can be
+            raise InvalidValue(None, cls, 'valid_after')
         parser.parse_timestamp('valid_before')
 
         parser.parse_parsable('constraints', SshCertConstraintVector)
@@ -981,6 +984,9 @@ class SshHostCertificateV01Base(ParsableBase, SshCertificateBase):  # pylint: di
         parser.parse_parsable('valid_principals', SshCertValidPrincipals)
 
         parser.parse_timestamp('valid_after')
+        if parser['valid_after'] is None:
+            # the all-ones value means 'no limit', which only the end of the validity can be
+            raise InvalidValue(None, cls, 'valid_after')
         parser.parse_timestamp('valid_before')
 
         parser.parse_parsable('critical_options', SshCertCriticalOptionVector)
